@@ -100,7 +100,7 @@ def shape_expr(rng, leaves, kind=None):
     n = len(leaves)
     if n == 0:
         return kind if kind in EMPTY_SHAPES else rng.choice(EMPTY_SHAPES)
-    kinds = ["list", "tuple", "nested", "dict", "dict_lists", "dict_empty"]
+    kinds = ["list", "tuple", "nested", "dict", "dict_lists", "dict_empty", "mappingproxy", "chainmap"]
     if n == 1:
         kinds.append("str")
     k = kind or rng.choice(kinds)
@@ -118,9 +118,32 @@ def shape_expr(rng, leaves, kind=None):
     if k == "dict_lists":
         cut = rng.randint(0, n)
         return "{'A': [%s], 'B': [%s]}" % (", ".join(leaves[:cut]), ", ".join(leaves[cut:]))
+    if k == "mappingproxy":
+        return "MappingProxyType({" + ", ".join("'k%d': %s" % (i, x) for i, x in enumerate(leaves)) + "})"
+    if k == "chainmap":
+        cut = rng.randint(0, n)
+        return "ChainMap({%s}, {%s})" % (", ".join("'a%d': %s" % (i, x) for i, x in enumerate(leaves[:cut])), ", ".join("'b%d': [%s]" % (i, x) for i, x in enumerate(leaves[cut:])))
     if k == "dict_empty":
         return "{'E': [], 'A': [%s]}" % ", ".join(leaves)
     return "[" + ", ".join(leaves) + "]"
+
+
+def respell_list(rng, paths, root, p=0.25):
+    """the same files, some spelled differently (./x, d/../x, absolute, absolute with '.' / '..' segments)"""
+    out = []
+    for x in paths:
+        k = rng.random()
+        if k > p or x.startswith("/"):
+            out.append(x)
+        elif k < p * 0.25:
+            out.append("./" + x)
+        elif k < p * 0.5:
+            out.append("zz/../" + x)
+        elif k < p * 0.75:
+            out.append(root + "/./" + x)
+        else:
+            out.append(root + "/qq/../" + x)
+    return out
 
 
 def leaf_expr(spelling, as_path=False):
@@ -135,7 +158,7 @@ def leaf_expr(spelling, as_path=False):
 def render_workflow(targets, header="", defaults=None, wf_kwargs=""):
     """targets: list of dicts with name, ins_expr, outs_expr, spec, options (dict of
     python-expression strings), protect_expr, route ('target'|'template'|'raw')."""
-    lines = ["from pathlib import Path", "from gwf import Workflow, AnonymousTarget", header, ""]
+    lines = ["from pathlib import Path", "from types import MappingProxyType", "from collections import ChainMap", "from gwf import Workflow, AnonymousTarget", header, ""]
     kw = wf_kwargs
     if defaults:
         kw = (kw + ", " if kw else "") + "defaults=%r" % (defaults,)
